@@ -415,6 +415,73 @@ func runC10(r *Run) {
 		}
 	})
 
+	r.rule("R12", "under net/http the peer address is the one net/http reports: the address the adaptor hands to fasthttp's RequestCtx.Init — the peer IsProxyTrusted judges — is the result of resolving the request's RemoteAddr, unchanged, and a RemoteAddr that does not resolve never reaches Init (no substitute such as loopback, which a `Loopback: true` trust configuration would count as a trusted proxy) (E2 provenance + must-not-reach)", func() {
+		n := 0
+		r.P.AllFuncs("middleware/adaptor", func(f *ssa.Function) {
+			for _, c := range callsMatching(f, false, nameHasSuffix("fasthttp.RequestCtx).Init")) {
+				n++
+				args := c.Common.Args
+				if len(args) < 3 {
+					r.bad(short(f.String())+":Init:peer-address", r.pos(c.Instr), "RequestCtx.Init is not called with (req, addr, logger)")
+					continue
+				}
+				addr := args[2]
+				var res *ssa.Call
+				for _, rc := range callsMatching(f, false, nameIs("net.ResolveTCPAddr", "net.ResolveIPAddr", "net.ResolveUDPAddr")) {
+					if cv, ok := rc.Value().(*ssa.Call); ok {
+						res = cv
+					}
+				}
+				if res == nil {
+					r.bad(short(f.String())+":Init:peer-address", r.pos(c.Instr), "the address handed to RequestCtx.Init is not resolved from the request's RemoteAddr in this function: not the shape the rule reads")
+					continue
+				}
+				fromReq := dependsOn(res.Call.Args[len(res.Call.Args)-1], func(v ssa.Value) bool {
+					if fa, ok := v.(*ssa.FieldAddr); ok {
+						if fv := fieldOfValue(fa); fv != nil && fv.Name() == "RemoteAddr" {
+							return true
+						}
+					}
+					return false
+				}) != nil
+				var ext ssa.Value
+				var errv ssa.Value
+				for _, u := range *res.Referrers() {
+					if e, ok := u.(*ssa.Extract); ok {
+						if e.Index == 0 {
+							ext = e
+						} else {
+							errv = e
+						}
+					}
+				}
+				okFlow := ext != nil && fromReq && flowsUnchanged(addr, ext)
+				r.check(okFlow, short(f.String())+":Init:peer-address-is-the-resolved-RemoteAddr", r.pos(c.Instr), "the peer address is the resolved RemoteAddr of the net/http request",
+					"the peer address handed to fasthttp is not (only) the resolved RemoteAddr of the net/http request: a substitute address (loopback for an unresolvable RemoteAddr) is judged by IsProxyTrusted in the client's place — with `TrustProxy` and `Loopback: true` a request whose RemoteAddr a RealIP-style middleware overwrote with `unknown,` has its X-Forwarded-* headers believed")
+				// the failure edge never reaches Init
+				if errv != nil {
+					reached := false
+					for _, br := range ifsOnValue(f, errv) {
+						if sl, ok := br.nilSlot(false); ok {
+							if _, hit := reachEdge(edge{br.If.Block(), sl}, func(in ssa.Instruction) bool { return in == c.Instr }, nil, nil); hit != nil {
+								reached = true
+							}
+						}
+					}
+					r.check(!reached, short(f.String())+":Init:not-after-a-failed-resolution", r.pos(c.Instr), "a RemoteAddr that does not resolve is refused before a context is initialised",
+						"a request whose RemoteAddr does not resolve is still served: the peer address is then whatever the variable held")
+				} else {
+					r.bad(short(f.String())+":Init:not-after-a-failed-resolution", r.pos(c.Instr), "the error of the address resolution is not looked at")
+				}
+			}
+		})
+		r.atLeast("RequestCtx.Init calls in the adaptor", n, 1)
+	})
+
+	r.rule("R11", "the request view answers like the context: Req().Host / Hostname / IP / IPs / Protocol / Secure / BaseURL / IsProxyTrusted / IsFromLocal / Port / Subdomains each delegate to the context method of the same name — the trust gate sits in the context methods, a view wired to another method would bypass or misapply it (sibling agreement)", func() {
+		viewDelegatesByNameRule(r, "DefaultReq", []string{"BaseURL", "Host", "Hostname", "IP", "IPs", "IsFromLocal", "IsProxyTrusted", "Port", "Protocol", "Secure", "Subdomains"}, "the view would report a proxy-derived value the context computes differently")
+	})
+
 	r.rule("R10", "the proxy set is the operator's: nothing in the package assigns Config.TrustProxyConfig as a whole or one of its configured members (Proxies, Loopback, Private, LinkLocal) — only the lookup tables derived from them are written; a fallback that replaces the configuration when the address list is empty throws away a set given by classes alone, and ties the app to a mutable package default (E11, who-may-write)", func() {
 		derived := map[string]bool{"ips": true, "ranges": true}
 		n := 0
